@@ -51,16 +51,24 @@ Theorem C11_mutators_reach_both :
   (forall o sb1 sl1 fi, both_op o = true ->
      cache_status bstep lstep dur now sb sl (op_path o) = (sb1, sl1, CHit, fi, None) ->
      cache_step bstep lstep dur now (sb, sl, tbl) o = base_then_layer bstep lstep sb1 sl1 tbl o) /\
-  (* ... on a name not cached / cached stale: Chtimes, Chmod, Chown, Rename copy the file into the layer first *)
+  (* ... on a name not cached / cached stale: Chtimes, Chmod, Chown, Rename copy the file into the layer first
+     (CacheOnReadFs.copyToLayer = cache_copy_to_layer); RemoveAll and Remove do not.
+     Remove on a MISS [miss_base_only o cs: o = Remove _, cs = CMiss] — the layer is known not to hold the
+     name — calls the base only (since the fix, cache_remove_miss_base_only = 1) and returns its result as it is *)
   (forall o sb1 sl1 cs fi, both_op o = true -> cs = CMiss \/ cs = CStale ->
      cache_status bstep lstep dur now sb sl (op_path o) = (sb1, sl1, cs, fi, None) ->
      cache_step bstep lstep dur now (sb, sl, tbl) o =
-     if copies_first o then
-       match copy_to_layer bstep lstep sb1 sl1 (op_path o) with
+     if miss_base_only o cs then let '(sb2, r) := bstep sb1 o in ((sb2, sl1, tbl), r)
+     else if copies_first o then
+       match cache_copy_to_layer bstep lstep sb1 sl1 (op_path o) with
        | (sb2, sl2, Some ce) => ((sb2, sl2, tbl), RErr ce)
        | (sb2, sl2, None) => base_then_layer bstep lstep sb2 sl2 tbl o
        end
      else base_then_layer bstep lstep sb1 sl1 tbl o) /\
+  (forall p sb1 sl1 fi,
+     cache_status bstep lstep dur now sb sl p = (sb1, sl1, CMiss, fi, None) ->
+     cache_step bstep lstep dur now (sb, sl, tbl) (Remove p) =
+     let '(sb2, r) := bstep sb1 (Remove p) in ((sb2, sl1, tbl), r)) /\
   (* Mkdir (MkdirAll on the layer), MkdirAll *)
   (forall p perm,
      cache_step bstep lstep dur now (sb, sl, tbl) (Mkdir p perm) =
@@ -98,9 +106,10 @@ Theorem C11_mutators_reach_both :
      | (sb3, r) => ((sb3, sl1, tbl), RErr (err_of r))
      end).
 Proof.
-  intros. split; [|split; [|split; [|split; [|split]]]]; intros.
+  intros. split; [|split; [|split; [|split; [|split; [|split]]]]]; intros.
   - now apply mutator_hit with (fi := fi).
   - now apply mutator_miss_or_stale with (cs := cs) (fi := fi).
+  - now apply remove_miss with (fi := fi).
   - apply mkdir_both.
   - apply mkdirall_both.
   - apply create_both.
